@@ -1,0 +1,24 @@
+//go:build verif
+
+package wsp
+
+import "sync/atomic"
+
+var verifSched atomic.Value // func(name string, obj interface{})
+
+// VerifSetSched installs (or, with nil, removes) the schedule-point callback
+// (build tag verif only). Points: "join.answered" — the answer to a data
+// channel's JOIN has been written and the channel is not yet attached to its
+// session; obj is the data channel (websocket.Conn).
+func VerifSetSched(f func(name string, obj interface{})) {
+	if f == nil {
+		f = func(string, interface{}) {}
+	}
+	verifSched.Store(f)
+}
+
+func verifPoint(name string, obj interface{}) {
+	if f, ok := verifSched.Load().(func(string, interface{})); ok {
+		f(name, obj)
+	}
+}
